@@ -781,6 +781,9 @@ func (r *Run) writeEvidence(nviol int) {
 	if os.Getenv("VERIF_ONLY") != "" || (os.Getenv("VERIF_REPO") != "" && filepath.Clean(os.Getenv("VERIF_REPO")) != "/repo") {
 		dir = filepath.Join(VerifDir, ".build", "evidence-scratch")
 	}
+	if d := os.Getenv("VERIF_EVIDENCE_DIR"); d != "" {
+		dir = d // development runs (background sweeps) keep /verif/evidence untouched
+	}
 	_ = os.MkdirAll(dir, 0o755)
 	if err := os.WriteFile(filepath.Join(dir, r.ID+".json"), append(b, '\n'), 0o644); err != nil {
 		fmt.Fprintln(os.Stderr, "evidence:", err)
